@@ -39,3 +39,39 @@ Example C09_src_examples :
   gen_json_resolve_mut d [47;97;47;49] = Ret (Ok (VInt 2)) /\
   gen_toml_resolve_mut d [47;97;47;50] = Ret (Err (ResolveError_OutOfBounds 1 2 (mk_OutOfBoundsError 2 2))).
 Proof. vm_compute. repeat split. Qed.
+
+(* ==== assign / delete of the two backends, and writing through resolve_mut: re-translated in lens mode (DESIGN 13.8) ===== *)
+From JP Require Import Model.Pointer SpecHist Proofs.HistoryProofs Generated.ScanTreeMut Proofs.GenEquivTreeMut Proofs.GenClosureMut.
+
+(* the json and the toml copy of the assign walk (five functions each) of the CURRENT source return the same document and
+   the same result, for every real document and EVERY pointer text *)
+Theorem C09_src_assign_copies_agree : forall (d : value) (p : str) (v : value), sorted_value d ->
+  omap model_aout (gen_json_assign d (lens_root d) p v) = omap model_aout (gen_toml_assign d (lens_root d) p v).
+Proof. exact gen_assign_backends_agree. Qed.
+Print Assumptions C09_src_assign_copies_agree.
+
+(* the two copies of delete agree everywhere except at the root pointer ... *)
+Theorem C09_src_delete_copies_agree : forall (d : value) (p : str), sorted_value d -> valid_ptr p = true -> p <> [] ->
+  gen_json_delete d (lens_root d) p = gen_toml_delete d (lens_root d) p.
+Proof. exact gen_delete_backends_agree. Qed.
+Print Assumptions C09_src_delete_copies_agree.
+
+(* ... where they leave Null and the empty table: the single documented difference *)
+Theorem C09_src_delete_root_differs : forall d : value,
+  gen_json_delete d (lens_root d) [] = Ret (Null, Some d) /\ gen_toml_delete d (lens_root d) [] = Ret (Obj [], Some d).
+Proof. exact gen_delete_root. Qed.
+Print Assumptions C09_src_delete_root_differs.
+
+(* resolve_mut reaches the node resolve reaches; a value written through the returned reference is what resolve then reads at
+   that pointer, and every location neither on the path nor below it resolves as before *)
+Theorem C09_src_write_through : forall (be : backend) (d : value) (p : str) (v root : value) (l : lens value),
+  valid_ptr p = true -> gen_resolve_mut_lens be d (lens_root d) p = Ret (root, Ok l) ->
+  root = d /\
+  exists path, resolve p d = Ret (Ok (path, fst l)) /\
+    snd l v = update_at path (fun _ => v) d /\
+    resolve p (snd l v) = Ret (Ok (path, v)) /\
+    (forall q qpath w, valid_ptr q = true -> resolve q d = Ret (Ok (qpath, w)) ->
+       ~ is_prefix (tokens q) (tokens p) -> ~ is_prefix (tokens p) (tokens q) ->
+       resolve q (snd l v) = Ret (Ok (qpath, w))).
+Proof. exact gen_write_through_laws. Qed.
+Print Assumptions C09_src_write_through.
